@@ -107,6 +107,15 @@ type ZNamedSlice []V0
 
 func (ZNamedSlice) M0() {}
 
+// concrete (non-pointer, non-interface) types that implement error with a value receiver
+type ZErrVal int
+
+func (ZErrVal) Error() string { return "zerrval" }
+
+type ZErrStruct struct{ Code int }
+
+func (ZErrStruct) Error() string { return "zerrstruct" }
+
 type ZNamedFunc func() V0
 type ZErr struct{}
 
@@ -121,6 +130,7 @@ var zooTypes = []reflect.Type{
 	reflect.TypeOf(ZEmbIfaceBeforeIn{}), reflect.TypeOf(ZEmbPtrBeforeIn{}), reflect.TypeOf(ZEmbIfaceBeforeOut{}), reflect.TypeOf(ZEmbPtrBeforeOut{}),
 	reflect.TypeOf((*ZSrc)(nil)).Elem(), reflect.TypeOf((*ZSrc2)(nil)).Elem(), reflect.TypeOf(&V4{}), reflect.TypeOf(&V5{}),
 	reflect.TypeOf(ZEmbIfaceBeforeIn{}), reflect.TypeOf(ZEmbIfaceBeforeOut{}),
+	reflect.TypeOf(ZErrVal(0)), reflect.TypeOf(ZErrStruct{}), reflect.TypeOf(ZErrVal(0)), reflect.TypeOf(ZErrStruct{}),
 }
 
 var tagValues = map[string][]string{
@@ -281,8 +291,11 @@ func (g *ggen) funcType(top bool) reflect.Type {
 		g.hugeOK = false
 	}
 	for i := 0; i < nOut; i++ {
-		if g.r.Intn(5) == 0 {
+		if x := g.r.Intn(10); x < 2 {
 			outs = append(outs, errT)
+		} else if x == 2 {
+			// an error result of a concrete value type (its zero value is a non-nil error)
+			outs = append(outs, []reflect.Type{reflect.TypeOf(ZErrVal(0)), reflect.TypeOf(ZErrStruct{}), reflect.TypeOf(&ZErr{})}[g.r.Intn(3)])
 		} else {
 			outs = append(outs, g.typ())
 		}
